@@ -73,7 +73,7 @@ func (e *Explorer) Run() *Report {
 	work := [][]int64{nil}
 	busy := 0
 	stop := false
-	seenViol := map[string]bool{}
+	seenViol := map[string]*Violation{}
 	const sampleK = 3
 	doneSeen := 0
 	rng := rand.New(rand.NewSource(int64(e.Seed) + 1))
@@ -218,9 +218,17 @@ func (e *Explorer) Run() *Report {
 				for _, v := range res.Violations {
 					rep.ViolationCount++
 					key := v.Kind + "|" + v.Label + "|" + v.Facts["site"] + "|" + factKey(v.Facts)
-					if !seenViol[key] {
-						seenViol[key] = true
+					if first := seenViol[key]; first == nil {
+						seenViol[key] = v
 						rep.Violations = append(rep.Violations, v)
+					} else if distinctTrace(first, v) {
+						// other witnesses of the same violation (different schedules): the driver replays them in turn,
+						// fewest uncontrollable races first
+						first.Alternates = append(first.Alternates, v)
+						sort.SliceStable(first.Alternates, func(i, j int) bool { return first.Alternates[i].Races < first.Alternates[j].Races })
+						if len(first.Alternates) > maxAlternates {
+							first.Alternates = first.Alternates[:maxAlternates]
+						}
 					}
 				}
 				if sample != nil {
@@ -321,4 +329,30 @@ func (it *Interp) samplePath(res *PathResult) map[string]any {
 	sort.Strings(reached)
 	m["witnesses_reached"] = reached
 	return m
+}
+
+// maxAlternates bounds the extra witnesses kept per distinct violation.
+const maxAlternates = 7
+
+func distinctTrace(first, v *Violation) bool {
+	same := func(a, b []string) bool {
+		if len(a) != len(b) {
+			return false
+		}
+		for i := range a {
+			if a[i] != b[i] {
+				return false
+			}
+		}
+		return true
+	}
+	if same(first.Trace, v.Trace) {
+		return false
+	}
+	for _, o := range first.Alternates {
+		if same(o.Trace, v.Trace) {
+			return false
+		}
+	}
+	return true
 }
